@@ -326,6 +326,13 @@ class FnTr:
                 return self.block(rest)
             if self.is_super_init(s.value):
                 return self.block(rest)
+            if self.is_super_init(s.value, any_args=True) and 'super_init' in self.u.hooks:
+                vals = [self.expr(a) for a in s.value.args]
+                pend, self.pending = self.pending, []
+                self.u.hooks['super_init'](self, vals)
+                inner = self.block(rest)
+                self.pending = pend
+                return self.wrap(inner)
             c = s.value
             if isinstance(c, ast.Call) and isinstance(c.func, ast.Attribute) and c.func.attr == 'add' and len(c.args) == 1 \
                     and isinstance(c.func.value, ast.Name) and c.func.value.id in self.env \
@@ -361,10 +368,10 @@ class FnTr:
             return self.while_stmt(s, rest)
         raise Unsupported(f'`{self.inst.qual}`: statement `{type(s).__name__}`: {ast.unparse(s)[:80]}')
 
-    def is_super_init(self, e):
+    def is_super_init(self, e, any_args=False):
         return (isinstance(e, ast.Call) and isinstance(e.func, ast.Attribute) and e.func.attr == '__init__'
                 and isinstance(e.func.value, ast.Call) and isinstance(e.func.value.func, ast.Name)
-                and e.func.value.func.id == 'super' and not e.args and not e.keywords)
+                and e.func.value.func.id == 'super' and (any_args or not e.args) and not e.keywords)
 
     def ret_value(self, e):
         # a call of a raising instance in return position is the result itself
@@ -1039,6 +1046,8 @@ class FnTr:
                 raise Unsupported(f'zip of {a.typ}, {b.typ}')
             if f.id == 'cast' and len(e.args) == 2:
                 return self.expr(e.args[1])
+            if f.id == 'sorted' and 'sorted' in self.u.hooks:
+                return self.u.hooks['sorted'](self, e)
             if f.id == 'bool' and len(e.args) == 1:
                 return Val(self.truth(self.expr(e.args[0])), 'Bool')
             if f.id == 'float' and len(e.args) == 1:
